@@ -83,6 +83,7 @@ func runC17(c *ctx) error {
 	if c.thorough() {
 		n = 1000000
 	}
+	prevSource := ""
 	check := func(s, class string) {
 		got, ok := fullSource(s)
 		ans := vl.Enc(got)
@@ -124,6 +125,20 @@ func runC17(c *ctx) error {
 					}
 				}
 			}
+			// canonicalising is an observer of one value: the plugin keeps the source it was given, and a plugin value
+			// whose Source is assigned again answers for the new source (prevSource: the previous input of this run)
+			if pl.Source != s {
+				c.res.Fail(core.OracleFailure{What: "marshalling a plugin changed its Source field", Input: s, Got: pl.Source, Want: s})
+			}
+			if prevSource != "" {
+				_ = pl.FullSource()
+				pl.Source = prevSource
+				want2, _ := fullSource(prevSource)
+				if got2 := pl.FullSource(); got2 != want2 {
+					c.res.Fail(core.OracleFailure{What: "FullSource of a plugin value whose Source was assigned again differs from a fresh plugin with that source", Input: map[string]any{"first": s, "then": prevSource}, Got: got2, Want: want2})
+				}
+			}
+			prevSource = s
 		}
 		c.res.OracleChecks++
 		if inDom(s) {
